@@ -54,6 +54,8 @@ def run(rep, tier):
         elif r["kind"] == "conv":
             if r["out"] != r["s"] and r["s"] not in al:
                 what = "value-altered"
+            elif r["s"] in al and r["out"] != r["s"]:
+                what = "alias-does-not-map-to-its-canonical-spelling"
             elif r["custom"] and any(c["enum"] == r["enum"] and c["s"] == r["s"] for c in cases):
                 what = "specified-spelling-not-a-dedicated-variant"
             elif not r["idem"]:
